@@ -162,6 +162,13 @@ impl<T: Send> RendezvousSyncSender<T> {
 
 impl<T: Send> Clone for RendezvousSyncSender<T> {
   fn clone(&self) -> Self {
+    // A handle that was closed no longer counts towards its side; neither does its clone.
+    if self.closed.load(Ordering::Acquire) {
+      return RendezvousSyncSender {
+        shared: Arc::clone(&self.shared),
+        closed: AtomicBool::new(true),
+      };
+    }
     self.shared.add_sender();
     RendezvousSyncSender {
       shared: Arc::clone(&self.shared),
@@ -332,6 +339,13 @@ impl<T: Send> RendezvousAsyncSender<T> {
 
 impl<T: Send> Clone for RendezvousAsyncSender<T> {
   fn clone(&self) -> Self {
+    // A handle that was closed no longer counts towards its side; neither does its clone.
+    if self.closed.load(Ordering::Acquire) {
+      return RendezvousAsyncSender {
+        shared: Arc::clone(&self.shared),
+        closed: AtomicBool::new(true),
+      };
+    }
     self.shared.add_sender();
     RendezvousAsyncSender {
       shared: Arc::clone(&self.shared),
